@@ -116,6 +116,8 @@ class Ctx:
             r.violated = r.violated or "deadlock"
         if rc == -9:
             r.error = "timeout"
+        elif "Postcondition" in tail and "is false" in tail:
+            r.violated = r.violated or "postcondition"
         elif r.violated is None and "No error has been found" not in tail and not simulate:
             r.error = "tlc failed: " + tail[-1500:]
         elif simulate and r.violated is None and ("Error:" in tail and "TLC threw" in tail):
